@@ -528,8 +528,10 @@ def set_terminal_size(tty: IO, width: int, height: int,
                       pixwidth: int, pixheight: int) -> None:
     """Set the terminal size of a TTY"""
 
+    # The fields of struct winsize are unsigned shorts
     fcntl.ioctl(tty, termios.TIOCSWINSZ,
-                struct.pack('hhhh', height, width, pixwidth, pixheight))
+                struct.pack('HHHH', *(min(max(value, 0), 0xffff) for value in
+                                      (height, width, pixwidth, pixheight))))
 
 
 class OptionsParser:
